@@ -1269,6 +1269,16 @@ M('C18', '_connect_measurements_fct copies the kwargs with .copy() unconditional
   "        extra_kwargs = {} if extra_kwargs is None else extra_kwargs.copy()\n        wrap = False",
   None, expect='silent')
 
+M('C18', 'original defect: DMRGEngine.is_converged indexes the empty statistics of a resumed run', 'tenpy/algorithms/dmrg.py',
+  "        if len(self.sweep_stats['E']) == 0:\n            # no sweep since `reset_stats` yet, e.g. right after resuming from a checkpoint\n            return False\n", "",
+  'RESUME-empty-stats')
+M('C18', 'original defect: VUMPSEngine.is_converged indexes the empty statistics of a resumed run', 'tenpy/algorithms/vumps.py',
+  "        if len(self.sweep_stats['E']) == 0:\n            # no sweep since `reset_stats` yet, e.g. right after resuming from a checkpoint\n            return False\n", "",
+  'RESUME-empty-stats')
+M('C18', 'DMRGEngine.is_converged tests emptiness with `not` (twin)', 'tenpy/algorithms/dmrg.py',
+  "        if len(self.sweep_stats['E']) == 0:\n", "        if not self.sweep_stats['Delta_E']:\n",
+  None, expect='silent')
+
 # ---------------------------------------------------------------- C16 / C19
 M('C16', 'GMRES restart: relative residual norm used for normalisation (round-3 seed b)', KRY,
   """        self.total_error.append([npc.norm(self.rs[-1]) / self.b_norm])
